@@ -88,7 +88,18 @@ func judgeWrites(c *vs.Case, e *Env, t *SyncTrace, parent map[string]any, epoch 
 				// the adoption decision is taken on the observed (cached) object, like every
 				// ControllerRefManager; the live one may have been relabelled since
 				cached := FindIn(t.PreCache[res], r.Pre)
-				if e.selectorMatches(parent, LabelsOf(r.Pre)) || (cached != nil && metaStr(cached, "uid") == metaStr(r.Pre, "uid") && e.selectorMatches(parent, LabelsOf(cached))) {
+				// ... and with the selector of the parent as the sync observed it (its cache may lag behind an edit)
+				selParents := []map[string]any{parent}
+				if cp := FindIn(t.PreCache[cfg.ParentResource], parent); cp != nil && metaStr(cp, "uid") == uid {
+					selParents = append(selParents, cp)
+				}
+				ok := false
+				for _, sp := range selParents {
+					if e.selectorMatches(sp, LabelsOf(r.Pre)) || (cached != nil && metaStr(cached, "uid") == metaStr(r.Pre, "uid") && e.selectorMatches(sp, LabelsOf(cached))) {
+						ok = true
+					}
+				}
+				if ok {
 					c.Class("adoption-edit")
 					continue
 				}
@@ -292,6 +303,37 @@ func PropC02(c *vs.Case, f Factory, kind string) error {
 	nontrivial := false
 	steps := 2 + c.Int(4)
 	for s := 0; s < steps; s++ {
+		if scn.Cfg.Kind == "composite" && !scn.Cfg.GenerateSelector && s > 0 && c.Prob(1, 6) {
+			// the user edits the parent's selector (and the hook follows): objects that matched only
+			// the former selector are no longer the parent's business
+			cur := scn.SelLabels["app"]
+			next := cur + "-b"
+			if strings.HasSuffix(cur, "-b") {
+				next = strings.TrimSuffix(cur, "-b")
+			}
+			scn.SelLabels["app"] = next
+			for i := range scn.Prog.Children {
+				if scn.Prog.Children[i].Labels != nil {
+					scn.Prog.Children[i].Labels["app"] = next
+				}
+			}
+			scn.Prog.Install(env.W, scn.Cfg.Kind)
+			env.W.Sim.ExtUpdate(scn.Cfg.ParentResource, scn.ParentNS(), scn.ParentName(), func(o map[string]any) {
+				spec := o["spec"].(map[string]any)
+				if sel, ok := spec["selector"].(map[string]any); ok {
+					if ml, ok := sel["matchLabels"].(map[string]any); ok {
+						ml["app"] = next
+					}
+				}
+				if tl, ok := getPath(o, "spec.template.metadata.labels"); ok {
+					if tm, ok := tl.(map[string]any); ok {
+						tm["app"] = next
+					}
+				}
+			})
+			log = append(log, "parent selector edited: app="+next)
+			c.Class("parent-selector-edited")
+		}
 		// per-resource cache lag: each cache catches up with probability 2/3
 		for _, r := range env.W.ResourceNames() {
 			if c.Prob(2, 3) {
